@@ -57,6 +57,7 @@ PROOF_UNITS = {
     'C16': [('contracts.convert', 'ToDirected', (), {})] + [('contracts.ctor', 'Init', ('DynDiGraph',), {'edge_removal': 'default'})],
     'C10': [('contracts.writers', 'GenerateInteractions', (cls,), {}) for cls in ('DynGraph', 'DynDiGraph')]
            + [('contracts.stream', 'StreamInteractions', (cls,), {}) for cls in ('DynGraph', 'DynDiGraph')],
+    'C11': [('contracts.writers', 'NodeLinkData', (cls,), {}) for cls in ('DynGraph', 'DynDiGraph')],
     'C14': [('contracts.pure', 'AnnotatePaths', (), {}), ('contracts.pure', 'PathLength', (), {}), ('contracts.pure', 'PathDuration', (), {})],
     'C17': [('contracts.stats', 'EdgeContribution', (), {})],
     'C06': [('contracts.slice', 'TimeSlice', (cls,), {'t_to': t}) for cls in ('DynGraph', 'DynDiGraph') for t in ('int', 'none')]
@@ -97,7 +98,7 @@ STATIC_PARTS = {
 LEVELS = {
     'C01': 'other', 'C03': 'other', 'C04': 'other', 'C05': 'other', 'C07': 'other', 'C08': 'other',
     'C02': 'other', 'C06': 'other', 'C16': 'other', 'C17': 'other', 'C19': 'other',
-    'C09': 'other', 'C10': 'other', 'C11': 'exploration', 'C18': 'other',
+    'C09': 'other', 'C10': 'other', 'C11': 'other', 'C18': 'other',
     'C12': 'exploration', 'C13': 'exploration', 'C14': 'proof', 'C15': 'exploration', 'C20': 'exploration',
 }
 
